@@ -200,7 +200,45 @@ let run_close kvs _ =
   let status = if status = "-" && List.exists (function APeerClose _ -> true | _ -> false) ops then "-1" else status in
   Printf.sprintf "res=%s closes=%s status=%s" (String.concat "," rs) (if closes = [] then "none" else String.concat "," closes) status
 
+(* ---- suite pair: Writer ∘ Reader ---- *)
+let contains (s : string) (sub : string) : bool =
+  let n = String.length s and m = String.length sub in
+  let rec go i = i + m <= n && (String.sub s i m = sub || go (i + 1)) in go 0
+
+let run_pair kvs ikvs =
+  let ext = get_or ikvs "ext" "none" in
+  let co = if ext = "none" then None else Some { cnct = contains ext "client_no_context_takeover"; snct = contains ext "server_no_context_takeover" } in
+  let keyhex = unhex (get_or ikvs "keys" "-") in
+  let keys (i : nat) : key =
+    let i = int_of_nat i in
+    if 4 * i + 3 < String.length keyhex then
+      (((byte_tab.(Char.code keyhex.[4*i]), byte_tab.(Char.code keyhex.[4*i+1])), byte_tab.(Char.code keyhex.[4*i+2])), byte_tab.(Char.code keyhex.[4*i+3]))
+    else (((N0, N0), N0), N0) in
+  let rbuf = get_or kvs "rbuf" "A" in
+  let one dir_role thr prog =
+    let wcfg = { wc_role = dir_role; wc_co = co; wc_thr0 = n_of_int thr } in
+    let (ops, _) = parse_prog prog in
+    let st = w_run keys dz_oracle wcfg ops in
+    let wire = w_wire st in
+    let rcfg = { rc_role = (match dir_role with Client -> Server | Server -> Client); rc_co = co } in
+    let rops = List.concat_map (fun _ -> [OReader; (if rbuf = "A" then OReadAll else OReadAllN (nat_of_int (int_of_string rbuf)))]) ops in
+    let (obs, _) = run rcfg inflate_oracle c_initialLimitStored wire EEof (OSetLimit (z_of_int (-1)) :: rops) in
+    (* delivered messages: pair up R:typ with the following M *)
+    let rec pairs = function
+      | ObReader (Inl t) :: ObMsg (d, None) :: r -> let b = string_of_bytes d in Printf.sprintf "%d:%d:%s" (int_of_n t) (String.length b) (fnv b) :: pairs r
+      | [] -> []
+      | o :: _ -> ["FAIL:" ^ obs_str o] in
+    let expected = List.filter_map (function
+      | WWrite (t, p) -> let b = string_of_bytes p in Some (Printf.sprintf "%d:%d:%s" (int_of_n t) (String.length b) (fnv b))
+      | WStream (t, cs) -> let b = string_of_bytes (List.concat cs) in Some (Printf.sprintf "%d:%d:%s" (int_of_n t) (String.length b) (fnv b))
+      | _ -> None) ops in
+    (fnv (string_of_bytes wire), String.concat "," (pairs obs), String.concat "," expected) in
+  let (wc, c2s, ec) = one Client (int_of_string (get_or kvs "cthr" "0")) (get kvs "progc") in
+  let (ws, s2c, es) = one Server (int_of_string (get_or kvs "sthr" "0")) (get kvs "progs") in
+  Printf.sprintf "c2s=%s s2c=%s wc2s=%s ws2c=%s expc2s=%s exps2c=%s" c2s s2c wc ws ec es
+
 let suites : (string * ((string * string) list -> (string * string) list -> string)) list = [
+  "pair", run_pair;
   "close", run_close;
   "wire-in", run_wirein;
   "mask", (fun kvs _ -> run_mask kvs);
